@@ -962,9 +962,26 @@ class Assembler:
         for raw in tl:
             m = re.match(r'\s*//@(\w+)\s*(.*)$', raw)
             if not m:
-                self.emit(raw)
+                ln = self.emit(raw)
+                pl = getattr(self, 'pending_lemma', None)
+                if pl is not None:
+                    mm = re.match(r'\s*(?:pub\s+)?(?:broadcast\s+)?proof\s+fn\s+(\w+)', raw)
+                    if mm:
+                        self.open_lemma = (pl[0], pl[1], mm.group(1), ln)
+                        self.pending_lemma = None
+                ol = getattr(self, 'open_lemma', None)
+                if ol is not None and raw.startswith('}'):
+                    self.linemap.append((ol[3], ln, {'kind': 'clause', 'fn': 'lemma ' + ol[2], 'clause': ol[0], 'tags': ol[1], 'ckind': 'lemma'}))
+                    self.functions.append({'key': 'lemma ' + ol[2], 'name': ol[2], 'ctx': '', 'src': os.path.relpath(path, VERIF),
+                                           'clauses': [{'id': ol[0], 'tags': ol[1], 'kind': 'lemma'}], 'safety_tags': []})
+                    self.open_lemma = None
                 continue
             d, rest = m.group(1), m.group(2).strip()
+            if d == 'lemma':
+                # //@lemma <id> [tags...]   marks the proof fn that follows as one tagged obligation
+                parts = rest.split()
+                self.pending_lemma = (parts[0], parts[1:])
+                continue
             if d == 'include':
                 self.run_template(os.path.join(VERIF, 'contracts', rest))
             elif d == 'type':
